@@ -525,6 +525,30 @@ Qed.
 Theorem reader_fail n ws fuel : chunk_reader fuel (open_handler n ws true) = HErr.
 Proof. unfold open_handler. rewrite produce_fail. apply (chunk_reader_fail [MFail] (term_f [])). Qed.
 
+(** a panicking body writer: the channel closes after the full chunks, which the
+    session treats as a failure; the consumer sees exactly what it sees when the
+    body writer returns an error at the same point *)
+Lemma produce_panic_closed n ws : produce_panic n ws = map MChunk (fst (sink_writes n [] ws)) ++ [].
+Proof. unfold produce_panic. now rewrite app_nil_r. Qed.
+
+Theorem raw_exchange_panic n ws fuel : 0 < n -> lenw ws < fuel ->
+  raw_pulls fuel (open_panic n ws) = (pulls_fail (fst (sink_writes n [] ws)), None).
+Proof.
+  intros Hn Hf. unfold open_panic. rewrite produce_panic_closed.
+  apply (raw_pulls_fail [] term_closed). pose proof (full_chunks_bound n ws Hn). lia.
+Qed.
+
+Theorem reader_panic n ws fuel : chunk_reader fuel (open_panic n ws) = HErr.
+Proof. unfold open_panic. rewrite produce_panic_closed. apply (chunk_reader_fail [] term_closed). Qed.
+
+Theorem panic_same_as_error n ws fuel : 0 < n -> lenw ws < fuel ->
+  raw_pulls fuel (open_panic n ws) = raw_pulls fuel (open_handler n ws true) /\
+  chunk_reader fuel (open_panic n ws) = chunk_reader fuel (open_handler n ws true).
+Proof.
+  intros Hn Hf. rewrite raw_exchange_panic, raw_exchange_fail, reader_panic, reader_fail by assumption.
+  split; reflexivity.
+Qed.
+
 (** * segmentation of the case *)
 Lemma segment_concat sizes : forall data, concat (segment sizes data) = data.
 Proof.
@@ -572,7 +596,7 @@ Lemma model_with_ok c ws plain : (0 < N.to_nat (c_n c))%nat -> c_fail c = None -
         (firstn (N.to_nat (c_cancel_after c)) (pulls_ok cs)) (RErr EC_INVALID_QUERY)
         (if c_zstd c then plain else []) vec (if c_kind c <? 3 then Some vec else None).
 Proof.
-  intros Hn Hf. unfold model_C09_with, c09_failed. rewrite Hf.
+  intros Hn Hf. unfold model_C09_with, c09_open, c09_failed. rewrite Hf. cbn [andb].
   rewrite raw_exchange_ok by (try exact Hn; lia).
   rewrite reader_ok by (try exact Hn; lia).
   pose proof (raw_pulls_prefix [MEnd] pulls_ok (or_introl (conj (term_end []) eq_refl))
@@ -589,14 +613,22 @@ Lemma model_with_fail c ws plain k : (0 < N.to_nat (c_n c))%nat -> c_fail c = So
         (firstn (N.to_nat (c_cancel_after c)) (pulls_fail cs)) (RErr EC_INVALID_QUERY)
         (if c_zstd c then plain else []) HErr (if c_kind c <? 3 then Some HErr else None).
 Proof.
-  intros Hn Hf. unfold model_C09_with, c09_failed. rewrite Hf.
-  rewrite raw_exchange_fail by (try exact Hn; lia).
-  rewrite reader_fail.
-  pose proof (raw_pulls_prefix [MFail] pulls_fail (or_intror (conj (term_f []) eq_refl))
-                (fst (sink_writes (N.to_nat (c_n c)) [] ws)) (N.to_nat (c_cancel_after c))) as P.
-  unfold open_handler. rewrite produce_fail. unfold st in P.
-  destruct (raw_pulls (N.to_nat (c_cancel_after c)) _) as [cp t2]. cbn [fst] in P. subst cp.
-  reflexivity.
+  intros Hn Hf. unfold model_C09_with, c09_open, c09_failed. rewrite Hf. cbn [andb].
+  destruct (c_panic c).
+  - rewrite raw_exchange_panic by (try exact Hn; lia).
+    rewrite reader_panic.
+    pose proof (raw_pulls_prefix [] pulls_fail (or_intror (conj term_closed eq_refl))
+                  (fst (sink_writes (N.to_nat (c_n c)) [] ws)) (N.to_nat (c_cancel_after c))) as P.
+    unfold open_panic. rewrite produce_panic_closed. unfold st in P.
+    destruct (raw_pulls (N.to_nat (c_cancel_after c)) _) as [cp t2]. cbn [fst] in P. subst cp.
+    reflexivity.
+  - rewrite raw_exchange_fail by (try exact Hn; lia).
+    rewrite reader_fail.
+    pose proof (raw_pulls_prefix [MFail] pulls_fail (or_intror (conj (term_f []) eq_refl))
+                  (fst (sink_writes (N.to_nat (c_n c)) [] ws)) (N.to_nat (c_cancel_after c))) as P.
+    unfold open_handler. rewrite produce_fail. unfold st in P.
+    destruct (raw_pulls (N.to_nat (c_cancel_after c)) _) as [cp t2]. cbn [fst] in P. subst cp.
+    reflexivity.
 Qed.
 
 Lemma pulls_ok_nil_only cs : cs = [] -> pulls_ok cs = [RChunk [] true].
@@ -695,6 +727,13 @@ Proof.
   rewrite B. destruct (concat_removelast_prefix cs) as [r Hr].
   exists (r ++ snd (sink_writes n [] ws)). rewrite (sink_full_chunks_prefix n ws Hn). fold cs. rewrite Hr.
   now rewrite app_assoc.
+Qed.
+
+Theorem panic_never_last n ws fuel : 0 < n -> lenw ws < fuel ->
+  exists init, fst (raw_pulls fuel (open_panic n ws)) = init ++ [RErr EC_INTERNAL] /\
+               Forall not_last init /\ exists r, concat ws = bodies init ++ r.
+Proof.
+  intros Hn Hf. rewrite (proj1 (panic_same_as_error n ws fuel Hn Hf)). exact (fail_never_last n ws fuel Hn Hf).
 Qed.
 
 (** without any check of the bytes, [partial_ok] does not look at the stream *)
